@@ -362,6 +362,15 @@ def run(chk):
         for a, _ in rng.sample(base, 5):
             f = a.split(' ')
             ins.append('pipec flow yamlj:%s %s %s' % (y.encode().hex(), ' '.join(toks), ' '.join(f[3:])))
+    # mapping files that once broke serialisation: custom fields named like columns of the struct with the other array
+    # flag, renames to names with quotes / backslashes / control characters (hand-written, from props/c14.py)
+    import props.c14 as c14
+    ec = c14.edge_configs()
+    for name in ('custom-named-like-a-column-array', 'custom-named-like-a-list-column-scalar',
+                 'custom-named-like-a-bytes-column-array', 'odd-renames', 'render-custom-unlisted'):
+        y, toks = ec[name]
+        for a, _ in rng.sample(base, 3):
+            ins.append('pipec flow yamlj:%s %s %s' % (y.encode().hex(), ' '.join(toks), ' '.join(a.split(' ')[3:])))
     impl = impl_run(chk.harness, ins, timeout=120.0)
     mod = model_run('C14', ins)
     chk.evals += len(ins)
